@@ -32,7 +32,7 @@ THEOREMS_BY_PROP = {
     'C05': ['unflatten_flatten', 'unflatten_flatten_plain', 'flatten_none_app'],
     'C07': ['cartesian_is_product', 'cartesian_length', 'cartesian_pair_index', 'cartesian_nested_pair'],
     'C08': ['concat_axis0_app', 'concat_axis1_zipapp', 'concat_axis1_lengths'],
-    'C09': ['is_none_exact', 'is_none_exact_axis1', 'mask_exact', 'mask_exact_lists', 'fill_none_exact', 'fill_none_exact_axis1',
+    'C09': ['is_none_exact', 'is_none_union_exact', 'is_none_union_axis1', 'is_none_exact_axis1', 'mask_exact', 'mask_exact_lists', 'fill_none_exact', 'fill_none_exact_axis1',
             'firsts_singletons'],
     'C10': ['unzip_zip_partial', 'unzip_zip_lists', 'with_field_get_same', 'with_field_get_other', 'with_field_preserves_shape',
             'with_field_preserves_lists'],
@@ -789,10 +789,24 @@ def cases_C09(rng, tier):
             out.append(C.Case(cid, 'fill_none', [axis], [arr(a['layout']), '(val int %d)' % rng.randint(-9, 99)],
                               dict(nontrivial=any(has_none(v) for v in a['vals']), tags=tags, types=[t])))
         elif r < 0.58:
+            type_ = None
+            if rng.random() < 0.2:
+                # option-type alternatives below a union (e.g. union[?float64, string], union[?var*int64, var*?int64])
+                alts, seen = [], []
+                for _ in range(rng.choice([2, 2, 3])):
+                    ta = G.gen_type(rng, rng.choice([0, 1, 1, 2]), allow_union=False, allow_rec=rng.random() < 0.3)
+                    if ta[0] != 'opt' and rng.random() < 0.6:
+                        ta = ('opt', ta)
+                    key = (G.type_key(ta), G.list_depth(ta))
+                    if key not in seen:
+                        seen.append(key)
+                        alts.append(ta)
+                if len(alts) >= 2:
+                    type_ = ('union', alts)
             a = G.gen_array(rng, depth=rng.choice([1, 2, 3, 3]), canonical_too=False,
-                            type_kw=dict(allow_union=rng.random() < 0.05))
+                            type_kw=dict(allow_union=rng.random() < 0.05), type_=type_)
             t = a['type']
-            axis = G.pick_axis(rng, t, allow_zero=True)
+            axis = G.pick_axis(rng, t, allow_zero=True) if type_ is None else rng.choice([0, 0, 0, 1, 1, 2, -1])
             mn, mx = G.list_depth(t)
             tags = dict(func='is_none', axis=axis, negaxis_rec=negrec(axis, t), beyond=bool(axis >= mn))
             tags_enc(tags, a)
